@@ -4,7 +4,10 @@
    UnicodeDecodeError.  as_returned: the msgctxt/msgid exchange of defect D15 (identity without context). *)
 From Coq Require Import List NArith Bool.
 From I18n Require Import Lib.Outcome Model.MoParser Spec.MoFormat Proofs.MoStrings Proofs.MoParser Proofs.MoCorollaries Proofs.MoRejects.
+From Coq Require String.
+From I18n Require Model.Tags Model.Check Proofs.Check Proofs.CheckMo.
 Import ListNotations.
+Import String.StringSyntax.
 Local Open Scope N_scope.
 
 (* no byte string makes the loader fail in any other way *)
@@ -88,6 +91,70 @@ Theorem C09_checker_tags : forall asc dec f tags o, checker_load asc dec f = Ok 
   (exists m s, tags = [TInvalidMoFile m; TBrokenEncoding s] /\ o = None).
 Proof. exact checker_load_tags. Qed.
 Print Assumptions C09_checker_tags.
+
+(* ---- the same glue in the general model of Checker.check (Model/Check.v), where the loader is an oracle: WHATEVER polib.mofile does,
+   moparser.SyntaxError on the last attempt gives exactly invalid-mo-file <message> (then broken-encoding iff the first attempt failed
+   to decode), check() returns before the sub-checks, and invalid-mo-file is emitted in no other case *)
+Module MC := I18n.Model.Check.
+Module PC := I18n.Proofs.Check.
+Module PM := I18n.Proofs.CheckMo.
+
+Theorem C09_glue_mo_rejection : forall upper ft path load c t b m,
+  MC.dispatch (MC.extension ft path) = Some (c, t, b) ->
+  PC.last_attempt load c = MC.LMoSyntax m ->
+  let r := MC.check_top upper MC.StatOk ft path load in
+  MC.r_end r = MC.Returned /\
+  match load c None with
+  | MC.LDecodeError o s e => MC.r_events r = [MC.Ev (MC.lit "invalid-mo-file") [Tags.ASafe m]; MC.broken_event upper o s e]
+  | _ => MC.r_events r = [MC.Ev (MC.lit "invalid-mo-file") [Tags.ASafe m]]
+  end.
+Proof. exact PC.mo_rejection. Qed.
+Print Assumptions C09_glue_mo_rejection.
+
+Theorem C09_glue_invalid_mo_file_iff : forall upper st ft path load,
+  PC.has_tag (MC.lit "invalid-mo-file") (MC.r_events (MC.check_top upper st ft path load)) = true <->
+  st = MC.StatOk /\ exists c t b m, MC.dispatch (MC.extension ft path) = Some (c, t, b) /\ PC.last_attempt load c = MC.LMoSyntax m.
+Proof. exact PC.invalid_mo_file_iff. Qed.
+Print Assumptions C09_glue_invalid_mo_file_iff.
+
+Theorem C09_glue_broken_encoding_iff : forall upper st ft path load,
+  PC.has_tag (MC.lit "broken-encoding") (MC.r_events (MC.check_top upper st ft path load)) = true <->
+  st = MC.StatOk /\ exists c t b, MC.dispatch (MC.extension ft path) = Some (c, t, b) /\ PC.is_decode_error (load c None) = true.
+Proof. exact PC.broken_encoding_iff. Qed.
+Print Assumptions C09_glue_broken_encoding_iff.
+
+(* checker_load above is that model with the MO loader model as the oracle: same tags in the same order with the same arguments,
+   nothing derived from a rejected file, sub-checks (with the encoding reset after a broken encoding) for an accepted one *)
+Theorem C09_glue_checker_load_is_instance : forall msg_text start_of enc_of crash_name asc dec f upper ft path c t b tags o,
+  MC.dispatch (MC.extension ft path) = Some (c, t, b) ->
+  checker_load asc dec f = Ok (tags, o) ->
+  let r := MC.check_top upper MC.StatOk ft path (PM.mo_oracle msg_text start_of enc_of crash_name asc dec f) in
+  MC.r_events r = map (PM.event_of msg_text start_of enc_of upper) tags /\
+  (o = None -> MC.r_end r = MC.Returned) /\
+  (o <> None -> MC.r_end r = MC.RunSubchecks t b (existsb (fun x => match x with TBrokenEncoding _ => true | _ => false end) tags)).
+Proof. exact PM.checker_load_is_instance. Qed.
+Print Assumptions C09_glue_checker_load_is_instance.
+
+(* ... and with that oracle the only exception that can leave check() is the UnicodeDecodeError of a retry that failed again
+   (which the ISO-8859-1 codec never raises; the codec is an oracle of the MO model) *)
+Theorem C09_glue_mo_no_foreign_exception : forall msg_text start_of enc_of crash_name asc dec f upper ft path n,
+  MC.r_end (MC.check_top upper MC.StatOk ft path (PM.mo_oracle msg_text start_of enc_of crash_name asc dec f)) <> MC.Raised (MC.RExc n) /\
+  forall m, MC.r_end (MC.check_top upper MC.StatOk ft path (PM.mo_oracle msg_text start_of enc_of crash_name asc dec f)) <> MC.Raised (MC.ROSError m).
+Proof. exact PM.mo_oracle_never_other. Qed.
+Print Assumptions C09_glue_mo_no_foreign_exception.
+
+Example C09_glue_ex_rejected :
+  let load := fun (_ : MC.loader) (enc : option MC.text) =>
+                match enc with None => MC.LDecodeError [1; 2; 255; 4] (BinInt.Z.of_N 2) (MC.lit "utf-8") | Some _ => MC.LMoSyntax (MC.lit "truncated file") end in
+  MC.check_top MC.upper_ascii MC.StatOk None (MC.lit "x/a.gmo") load =
+  MC.Res [MC.Ev (MC.lit "invalid-mo-file") [Tags.ASafe (MC.lit "truncated file")];
+          MC.Ev (MC.lit "broken-encoding") [Tags.ABytes [1; 2; 255; 4]; Tags.ASafe (MC.lit "cannot be decoded as"); Tags.AStr (MC.lit "UTF-8")]]
+         [(MC.Mofile, None); (MC.Mofile, Some (MC.lit "ISO-8859-1"))] MC.Returned.
+Proof. vm_compute. reflexivity. Qed.
+Example C09_glue_ex_rejected_first :
+  MC.check_top MC.upper_ascii MC.StatOk (Some (MC.lit "mo")) (MC.lit "whatever") (fun _ _ => MC.LMoSyntax (MC.lit "unexpected magic")) =
+  MC.Res [MC.Ev (MC.lit "invalid-mo-file") [Tags.ASafe (MC.lit "unexpected magic")]] [(MC.Mofile, None)] MC.Returned.
+Proof. vm_compute. reflexivity. Qed.
 
 (* non-vacuity on the example file of C08: truncations, a flipped terminator, a length one too large, swapped keys *)
 Example C09_ex_truncated : forall k, In k [0; 3; 4; 19; 20; 39; 40; 48; 75; 76; 100; 127]%nat ->
